@@ -223,8 +223,35 @@ func expected(g *model.Graph, steps []model.Step) (final int64, maxInter int64, 
 			}
 		case "count":
 			rows = 1
-		case "aggregate": // one count aggregation -> one row
-			rows = 1
+		case "aggregate": // a count aggregation -> one row; term(_label) -> one row per label present
+			rows = 0
+			for _, a := range s.Aggs {
+				switch {
+				case a.Kind == "count":
+					rows++
+				case a.Kind == "term" && a.Field == "_label":
+					labels := map[string]bool{}
+					if onV {
+						for i, v := range g.V {
+							if cv[i] > 0 {
+								labels[v.Label] = true
+							}
+						}
+					} else {
+						for i, e := range g.E {
+							if ce[i] > 0 {
+								labels[e.Label] = true
+							}
+						}
+					}
+					rows += int64(len(labels))
+				default:
+					return 0, 0, false
+				}
+			}
+			if t := total(); t > maxInter {
+				maxInter = t
+			}
 		case "limit":
 			t := total()
 			if t > s.N {
@@ -391,6 +418,8 @@ func shapes() [][]model.Step {
 	S := model.S
 	cnt := S("count")
 	agg := model.Step{Op: "aggregate", Aggs: []model.Agg{{Name: "c", Kind: "count"}}}
+	agg2 := model.Step{Op: "aggregate", Aggs: []model.Agg{{Name: "t", Kind: "term", Field: "_label"}, {Name: "c", Kind: "count"}}}
+	agg3 := model.Step{Op: "aggregate", Aggs: []model.Agg{{Name: "c", Kind: "count"}, {Name: "t", Kind: "term", Field: "_label"}, {Name: "c2", Kind: "count"}}}
 	out := [][]model.Step{
 		{S("V")}, {S("E")}, {S("V"), cnt}, {S("E"), cnt},
 		{S("V"), S("out")}, {S("V"), S("in")}, {S("V"), S("both")}, {S("V"), S("outE")}, {S("V"), S("inE")}, {S("V"), S("bothE")},
@@ -402,6 +431,8 @@ func shapes() [][]model.Step {
 		{S("V"), S("hasLabel", "S"), S("in")}, {S("V"), S("hasLabel", "L"), S("out"), S("in"), cnt},
 		{S("V"), S("out"), S("distinct")}, {S("V"), S("in"), S("distinct"), cnt}, {S("V"), S("both"), S("distinct")},
 		{S("V"), agg}, {S("V"), S("both"), agg}, {S("V"), S("out"), S("in"), agg},
+		// several aggregations in one step: each has its own 1000-slot feed
+		{S("V"), agg2}, {S("V"), S("both"), agg2}, {S("E"), agg2}, {S("V"), S("bothE"), agg3}, {S("V"), S("out"), S("in"), agg3},
 		{S("V"), S("as", "a"), S("both")},
 	}
 	for _, k := range []int64{0, 1, 99, 100, 101, 999, 1001, 4999, 5001} {
